@@ -26,6 +26,9 @@ type chain struct {
 	keys     []stateKey
 	keyset   map[string]bool
 
+	clean      bool   // drop storage entries that do not change the slot
+	noopBlocks []bool // per block: its diff names a storage slot it does not change
+	directed   int    // blocks with a same-address nonce update + class replacement
 	// evAddr: an address that emitted at least one event on this chain (filtered event queries)
 	evAddr *felt.Felt
 
@@ -97,9 +100,19 @@ func newChain(r *lib.RNG, newState bool, opt lib.GenOptions) *chain {
 	return c
 }
 
+// addKeyFirst: keys of directed blocks are always observed (the cap applies to the generated rest).
+func (c *chain) addKeyFirst(k stateKey) {
+	id := k.Kind + k.Addr.String() + k.Slot.String()
+	if c.keyset[id] || len(c.keys) >= 22 {
+		return
+	}
+	c.keyset[id] = true
+	c.keys = append(c.keys, k)
+}
+
 func (c *chain) addKey(k stateKey) {
 	id := k.Kind + k.Addr.String() + k.Slot.String()
-	if c.keyset[id] || len(c.keys) >= 10 {
+	if c.keyset[id] || len(c.keys) >= 12 {
 		return
 	}
 	c.keyset[id] = true
@@ -129,6 +142,58 @@ func (c *chain) next(plain bool) (*lib.Bundle, error) {
 		classes = map[felt.Felt]core.ClassDefinition{}
 	} else {
 		diff, classes = g.GenDiff(g.HeadState(), num, version)
+	}
+	if !plain {
+		// storage entries that do not change the slot (same value rewritten, zero written to an empty slot)
+		// leave no history entry on the legacy backend; count the blocks that have one, or drop them (clean)
+		prev := g.HeadState()
+		noop := false
+		for a, kv := range diff.StorageDiffs {
+			for k, v := range kv {
+				var cur felt.Felt
+				if pc, ok := prev.Contracts[a]; ok {
+					cur = pc.Storage[k]
+				}
+				if cur.Equal(v) {
+					if c.clean {
+						delete(kv, k)
+					} else {
+						noop = true
+					}
+				}
+			}
+			if len(kv) == 0 {
+				delete(diff.StorageDiffs, a)
+			}
+		}
+		c.noopBlocks = append(c.noopBlocks, noop)
+	} else {
+		c.noopBlocks = append(c.noopBlocks, false)
+	}
+	if !plain && num%3 == 2 {
+		// directed: ONE contract (deployed in an earlier block) gets a nonce update AND a class replacement in
+		// this block — two history entries of different kinds under the same address and block number
+		prev := g.HeadState()
+		var cands []felt.Felt
+		for a := range prev.Deployed {
+			if _, now := diff.DeployedContracts[a]; !now {
+				cands = append(cands, a)
+			}
+		}
+		sort.Slice(cands, func(i, j int) bool { return cands[i].Cmp(&cands[j]) < 0 })
+		if len(cands) > 0 {
+			a := cands[int(num/3)%len(cands)]
+			cur := prev.Contracts[a].Nonce
+			diff.Nonces[a] = new(felt.Felt).Add(&cur, lib.F(1))
+			ch := g.ClassHash(int(num) % 4)
+			if ch.Equal(&prev.Contracts[a].Class) {
+				ch = g.ClassHash((int(num) + 1) % 4)
+			}
+			diff.ReplacedClasses[a] = &ch
+			c.directed++
+			c.addKeyFirst(stateKey{Kind: "nonce", Addr: a})
+			c.addKeyFirst(stateKey{Kind: "class", Addr: a})
+		}
 	}
 	if diff.StorageDiffs[markerAddr] == nil {
 		diff.StorageDiffs[markerAddr] = map[felt.Felt]*felt.Felt{}
@@ -222,6 +287,7 @@ type world struct {
 	drv   *lib.Driver
 	fdrv  *lib.Driver // second model instance, for crash forks
 	fixed bool        // prune variant the code under test implements (detected, see probeVariant)
+	mig   migVariant  // migration variant the code under test implements (detected, see probeMigration)
 	lines []string    // state-changing model lines since cfg
 	ops   []opRec
 
@@ -287,8 +353,8 @@ func (w *world) violate(sig, what string) {
 }
 
 // newWorld opens an empty node on a fresh database and the model in the same configuration.
-func newWorld(res *lib.Result, ch *chain, drv, fdrv *lib.Driver, fixed bool, pcfg prunerCfg, cutoff uint64, name string, spec any) *world {
-	w := &world{res: res, ch: ch, name: name, spec: spec, drv: drv, fdrv: fdrv, fixed: fixed, pcfg: pcfg,
+func newWorld(res *lib.Result, ch *chain, drv, fdrv *lib.Driver, fixed bool, mig migVariant, pcfg prunerCfg, cutoff uint64, name string, spec any) *world {
+	w := &world{res: res, ch: ch, name: name, spec: spec, drv: drv, fdrv: fdrv, fixed: fixed, mig: mig, pcfg: pcfg,
 		height: -1, l1: -1, cutoff: cutoff, situation: "steady", quiescent: true}
 	w.nodeDB = memory.New()
 	w.shadowDB = memory.New()
@@ -309,7 +375,8 @@ func newWorld(res *lib.Result, ch *chain, drv, fdrv *lib.Driver, fixed bool, pcf
 }
 
 func (w *world) cfgLine() string {
-	return fmt.Sprintf("cfg %d %d %s %s %s", w.pcfg.Retained, w.pcfg.L2PerPrune, b01(w.cutoff > 0), b01(w.legacy()), b01(w.fixed))
+	return fmt.Sprintf("cfg %d %d %s %s %s %s %s", w.pcfg.Retained, w.pcfg.L2PerPrune, b01(w.cutoff > 0), b01(w.legacy()),
+		b01(w.fixed), b01(w.mig.SkipsMissing), b01(w.mig.ZeroNoop))
 }
 
 // openNode is a process start: new Blockchain on the database with a RetentionFloor seeded from it
@@ -704,7 +771,7 @@ func (w *world) event(kind string, n, ts uint64, plan prunePlan) eventResult {
 // a new process on the image (new Blockchain, re-seeded RetentionFloor, new pruner), observed, the
 // prune resumed by the same event, the head reverted and stored again.
 func (w *world) fork(kind string, n, ts uint64, seq int) {
-	f := &world{res: w.res, ch: w.ch, name: w.name, spec: w.spec, drv: w.fdrv, fixed: w.fixed, pcfg: w.pcfg,
+	f := &world{res: w.res, ch: w.ch, name: w.name, spec: w.spec, drv: w.fdrv, fixed: w.fixed, mig: w.mig, pcfg: w.pcfg,
 		height: w.height, l1: w.l1, fspec: w.fspec, cutoff: w.cutoff, isFork: true,
 		situation: "after-crash-mid-prune", quiescent: true, dirtyUpTo: max(w.dirtyUpTo, w.fspec), lastLow: w.lastLow,
 		noState: w.noState, extra: w.extra}
